@@ -7,4 +7,5 @@ S=/var/tmp/seeded-$SID-$$
 rsync -a --exclude .git /repo/ "$S/" || exit 2
 trap 'rm -rf "$S"' EXIT
 ( cd "$S" && patch -p1 -s < "$V/seeded/$SID/patch.diff" ) || { echo "ERROR patch does not apply"; exit 2; }
-VERIF_REPO="$S" VERIF_OUT="$S/.verif-out" "$V/scripts/check.sh" "$CID" "$TIER" 2>&1 | grep -E "^(VIOLATION|SUMMARY|ERROR|KNOWN)" | cut -c1-400 | head -${LINES_MAX:-8}
+CMD=$(python3 -c "import json,sys;m=json.load(open('$V/MANIFEST.json'));c=[c for c in m['checks'] if c['property_id']=='$CID'][0];print(c['quick_cmd'] if '$TIER'=='quick' else c['thorough_cmd'])")
+(cd "$V" && VERIF_REPO="$S" VERIF_OUT="$S/.verif-out" $CMD) 2>&1 | grep -E "^(VIOLATION|SUMMARY|ERROR|KNOWN)" | cut -c1-400 | head -${LINES_MAX:-8}
